@@ -15,7 +15,7 @@ case "$PATCH" in
   *)    git -C "$WT" apply "$PATCH" || { echo "patch does not apply"; exit 3; } ;;
 esac
 cd /verif
-XSIM_REPO="$WT" ./check "$@"
+XSIM_REPO="$WT" XSIM_REPLAY_DIR=/var/tmp/xsim-seed-replays XSIM_EVIDENCE_DIR=/var/tmp/xsim-seed-evidence ./check "$@"
 rc=$?
 echo "try_patch: exit code $rc"
 exit $rc
